@@ -287,7 +287,7 @@ def _gdot(gram, d):
 
 def gen_molecular(rng, row, nmols=1, sizes=(2, 3), n=48, vol_per_atom=32.0, with_h=True, max_tries=400,
                   boundary_prob=0.6, oblique=False, gram_fn=None, min_vol=150.0, halogens=0.0, bond_tolerance=0.4,
-                  face_bond=False):
+                  face_bond=False, h_axis=None):
     """A molecular crystal on the grid: `nmols` rigid mini-molecules (trees of bonded atoms) on general
     positions of setting `row`, bonded distances <= 1.5 A (X-H <= 1.12 A), every other contact >= 2.2 A.
     Returns a recipe dict (see build_crystal) with 'mols' = list of lists of asym indices (1-based) and
@@ -316,6 +316,10 @@ def gen_molecular(rng, row, nmols=1, sizes=(2, 3), n=48, vol_per_atom=32.0, with
         else:
             heavy = cand[(d2 >= 1.15 ** 2) & (d2 <= 1.5 ** 2)]
             light = cand[(d2 >= 0.85 ** 2) & (d2 <= 1.12 ** 2)]
+        if h_axis is not None:
+            # X-H bonds exactly along one cell axis
+            other = [c for c in range(3) if c != h_axis]
+            light = light[(light[:, other[0]] == 0) & (light[:, other[1]] == 0)]
         if len(heavy) == 0:
             continue
         hvec = {}
